@@ -623,7 +623,7 @@ def is_simple_list(c, name):
 def gen(ctx):
     import random
     cases = []
-    for i in range(120 if ctx.quick() else 2500):
+    for i in range(400 if ctx.quick() else 4000):
         seed = ctx.rng.randrange(10 ** 9)
         r = random.Random(seed)
         schema = gen_schema(r)
